@@ -120,22 +120,29 @@ fn animator_family(acc: &mut Acc) {
                     S4::U2 => animates(&cfg.zspecs),
                     S4::U1 => (false, false, false),
                 };
+              // every initial state, not only the enum's default one; the governing state is the one the caller
+              // configured / set (not read back from the animator)
+              for init in S4_ALL {
                 let mut code = [0usize; 4];
                 'outer: loop {
-                    let mut a = cfg.build(S4::X);
+                    let mut a = cfg.build(init);
+                    let mut cur = init;
                     acc.timelines += 1;
                     for (i, &oi) in code.iter().enumerate() {
                         let before = a.current_values().clone();
                         apply(&mut a, &ops[oi]);
+                        if let Op::Set(s) = ops[oi] {
+                            cur = s;
+                        }
                         acc.evals += 1;
                         let after = a.current_values().clone();
-                        let (an_a, an_k, an_d) = per_state(*a.current_state());
+                        let (an_a, an_k, an_d) = per_state(cur);
                         acc.field_checks += 5;
                         let bad = (!an_a && after.a.to_bits() != before.a.to_bits()) || (!an_k && after.k != before.k) || (!an_d && after.d.to_bits() != before.d.to_bits()) || after.u.to_bits() != before.u.to_bits() || after.z.to_bits() != before.z.to_bits();
                         if bad {
                             let h: Vec<String> = code[..=i].iter().map(|&o| ops[o].name()).collect();
                             acc.sink.add("animator:property-not-animated-by-the-current-state-changed", (9u64 << 56) | (xi as u64) << 32 | i as u64, || {
-                                (format!("after [{}]: state {:?} animates (a,k,d) = {:?}, yet values went {:?} -> {:?} | X={} Y={} U2={}", h.join(", "), a.current_state(), (an_a, an_k, an_d), before, after, cfg.names[0], cfg.names[1], pool(0)[zi].0), json!({"config": cfg.to_json(), "history": h}))
+                                (format!("initial state {init:?}, after [{}]: state {:?} (animator reports {:?}) animates (a,k,d) = {:?}, yet values went {:?} -> {:?} | X={} Y={} U2={}", h.join(", "), cur, a.current_state(), (an_a, an_k, an_d), before, after, cfg.names[0], cfg.names[1], pool(0)[zi].0), json!({"config": cfg.to_json(), "initial_state": format!("{init:?}"), "history": h}))
                             });
                             break;
                         }
@@ -153,6 +160,7 @@ fn animator_family(acc: &mut Acc) {
                         p -= 1;
                     }
                 }
+              }
             }
         },
         |a, b| {
@@ -275,13 +283,22 @@ pub fn run(run: Run) -> ! {
     cov.insert("traces_validated_against_impl".into(), json!(acc.evals));
     cov.insert("evaluations".into(), json!(acc.evals));
     cov.insert("distinct_nontrivial".into(), json!(acc.field_checks));
-    cov.insert("rule".into(), json!(format!("C01 keyframe space up to {nmax} keyframes x 6 timings x {{plain, start_with}} x 3 prior target contents (NaN-payload sentinels, ordinary values, Default) x time grid (all phases); plus all merged pairs T(<=2) x T(<=1) x 3 timing pairs, the empty merged list, and a second struct P2 (doc comments / #[allow] before the #[animate] markers, Lerp-able un-marked fields) and a remote proxy R3Proxy -> R3 with markers on some fields only, both driven through keyframe_from and setters; plus animator histories (every pool shape as X with three partner assignments for Y and U2, all histories to depth 4: a property the current state does not keyframe keeps its bits across every operation); oracle: every field that no component keyframes (incl. the never-keyframed #[animate] field u, the f64 field d and the non-#[animate] field z; the whole struct for an empty keyframe set) is bit-identical after update; non-trivial = individual (evaluation, field) bit comparisons")));
+    cov.insert("rule".into(), json!(format!("C01 keyframe space up to {nmax} keyframes x 6 timings x {{plain, start_with}} x 3 prior target contents (NaN-payload sentinels, ordinary values, Default) x time grid (all phases); plus all merged pairs T(<=2) x T(<=1) x 3 timing pairs, the empty merged list, and a second struct P2 (doc comments / #[allow] before the #[animate] markers, Lerp-able un-marked fields) and a remote proxy R3Proxy -> R3 with markers on some fields only, both driven through keyframe_from and setters; plus animator histories (every pool shape as X with three partner assignments for Y and U2, started in each of the four states - not only the enum's default one -, all histories to depth 4: a property that the state the caller configured / set does not keyframe keeps its bits across every operation); oracle: every field that no component keyframes (incl. the never-keyframed #[animate] field u, the f64 field d and the non-#[animate] field z; the whole struct for an empty keyframe set) is bit-identical after update; non-trivial = individual (evaluation, field) bit comparisons")));
     cov.insert("exhaustive".into(), json!(true));
     cov.insert("samples".into(), json!(acc.samples));
     run.finish(acc.sink, cov, vec!["the full family of struct shapes is C17's (every compiled shape there asserts sentinels on its un-animated fields); here: P, P2 and the remote proxy R3Proxy".into(), "longer animator histories are the E2 explorer's (C04-C07 run the same untouched-field oracle to depth 6-7)".into()])
 }
 
 pub fn replay(case: &Value) -> bool {
+    if !case["history"].is_null() {
+        // animator family: the family is small, re-run it whole
+        let mut acc = Acc::default();
+        animator_family(&mut acc);
+        for (s, v) in &acc.sink.map {
+            println!("{s}: {}", v.desc);
+        }
+        return acc.sink.map.is_empty();
+    }
     if !case["merged"].is_null() {
         let specs: Vec<TlSpec> = case["merged"].as_array().unwrap().iter().map(TlSpec::from_json).collect();
         let m = MergedTimeline::of(specs.iter().map(|s| s.build()).collect::<Vec<_>>());
